@@ -345,8 +345,19 @@ public:
       unsigned k = t.pick(6);
       if (k == 0)
         return lin_t(ivar()); // symbolic index (may be unaligned -> truncated concretely)
-      if (k == 1 || k == 2)
-        return lin_t(es, ivar()); // aligned symbolic index es*v
+      if (k == 1 || k == 2) {
+        // aligned symbolic index es*v; half of the time v is first given a small range that
+        // the abstract value knows (havoc; assume 0 <= v <= hi): the index is then symbolic for
+        // the domain and always hits an existing cell concretely
+        var_t v = ivar();
+        if (t.flag()) {
+          z_number hi((int64_t)(1 + t.pick(5)));
+          b.havoc(v);
+          b.assume(cst_t(lin_t(v) >= lin_t(z_number(0))));
+          b.assume(cst_t(lin_t(v) <= lin_t(hi)));
+        }
+        return lin_t(es, v);
+      }
       return const_index();
     };
     unsigned k = t.pick(8);
